@@ -185,8 +185,8 @@ func tkn(t lexer.TokenType, s string) *lexer.Token { return &lexer.Token{Type: t
 // constOfKind: a constant that can meaningfully be compared with a cell of the given generator kind
 func constOfKind(r *rand.Rand, kind string) *lexer.Token {
 	switch kind {
-	case "int", "intD":
-		return tkn(lexer.ItemLiteral, pickS(r, []string{`"5"^^type:int64`, `"0"^^type:int64`, `"10"^^type:int64`, `"-4"^^type:int64`, `"-3"^^type:int64`,
+	case "int", "intD", "intX":
+		return tkn(lexer.ItemLiteral, pickS(r, []string{`"-9223372036854775808"^^type:int64`, `"-9223372036854775807"^^type:int64`, `"4611686018427387904"^^type:int64`, `"5"^^type:int64`, `"0"^^type:int64`, `"10"^^type:int64`, `"-4"^^type:int64`, `"-3"^^type:int64`,
 			`"100"^^type:int64`, `"3"^^type:int64`, `"2"^^type:int64`, `"1"^^type:int64`, `"99"^^type:int64`, `"9223372036854775807"^^type:int64`}))
 	case "float", "floatD", "floatN":
 		return tkn(lexer.ItemLiteral, pickS(r, []string{`"1.5"^^type:float64`, `"2"^^type:float64`, `"-2.5"^^type:float64`, `"2e-07"^^type:float64`,
@@ -415,7 +415,7 @@ func genExprCase(r *rand.Rand) exprCase {
 	// rows: the three bindings hold cells whose kinds match the constants often enough
 	kinds := rowKinds(r)
 	if r.Intn(3) != 0 {
-		kinds = []string{[]string{"int", "float", "text", "textD", "intD", "time", "time", "node", "pred", "strD", "str", "bool", "floatN"}[r.Intn(13)], kinds[1], kinds[2]}
+		kinds = []string{[]string{"int", "float", "text", "textD", "intD", "time", "time", "node", "pred", "strD", "str", "bool", "floatN", "intX"}[r.Intn(14)], kinds[1], kinds[2]}
 		if r.Intn(2) == 0 {
 			kinds[1] = kinds[0]
 		}
